@@ -77,16 +77,18 @@ def _alarm(signum, frame):
     raise CaseTimeout("case exceeded its time limit")
 
 
-def _worker_init(modname, quiet):
+def _worker_init(modname, quiet, run_root=None):
     os.environ.setdefault("PYTHONHASHSEED", "0")
     os.environ["OMP_NUM_THREADS"] = "1"
     os.environ["MPLBACKEND"] = "Agg"
-    d = tempfile.mkdtemp(prefix="kv.", dir=SCRATCH_BASE)
+    base = run_root or SCRATCH_BASE
+    d = tempfile.mkdtemp(prefix="kv.", dir=base)
     _WORK["dir"] = d
     # library bookkeeping (matplotlib config / font cache) goes to its own scratch directory
-    lib = tempfile.mkdtemp(prefix="kvlib.", dir=SCRATCH_BASE)
-    os.environ["MPLCONFIGDIR"] = lib
-    _WORK["lib"] = lib
+    if run_root is None or "MPLCONFIGDIR" not in os.environ:
+        lib = tempfile.mkdtemp(prefix="kvlib.", dir=base)
+        os.environ["MPLCONFIGDIR"] = lib
+        _WORK["lib"] = lib
     # faulted plotting runs leave figures open
     import warnings
     warnings.filterwarnings("ignore")
@@ -96,9 +98,11 @@ def _worker_init(modname, quiet):
         os.dup2(devnull, 1)
         os.dup2(devnull, 2)
     signal.signal(signal.SIGALRM, _alarm)
-    import atexit
-    atexit.register(shutil.rmtree, d, True)
-    atexit.register(shutil.rmtree, lib, True)
+    if run_root is None:
+        import atexit
+        atexit.register(shutil.rmtree, d, True)
+        if "lib" in _WORK:
+            atexit.register(shutil.rmtree, _WORK["lib"], True)
 
 
 def clean_dir(d):
@@ -191,7 +195,7 @@ def run_check(modname, tier, seed, nproc=None, quiet=True):
     # heavy cases (case['w'] large) go first, one per chunk; light ones are grouped round-robin
     order = sorted(range(len(cases)), key=lambda i: -float(cases[i].get("w", 1) if isinstance(cases[i], dict) else 1))
     tot_w = sum(float(cases[i].get("w", 1) if isinstance(cases[i], dict) else 1) for i in order)
-    target = tot_w / (nproc * 6.0)
+    target = tot_w / (nproc * 16.0)
     chunks = []
     cur, cur_w = [], 0.0
     for i in order:
@@ -205,9 +209,25 @@ def run_check(modname, tier, seed, nproc=None, quiet=True):
         chunks.append(cur)
     ctx = multiprocessing.get_context("fork")
     results = []
-    with ctx.Pool(nproc, initializer=_worker_init, initargs=(modname, quiet)) as pool:
-        for out in pool.imap_unordered(_run_chunk, chunks):
-            results.extend(out)
+    # one scratch root per run, removed by the parent whatever happens to the workers
+    run_root = tempfile.mkdtemp(prefix="kvrun.", dir=SCRATCH_BASE)
+    os.environ["MPLCONFIGDIR"] = os.path.join(run_root, "mplconfig")
+    os.makedirs(os.environ["MPLCONFIGDIR"])
+    os.environ["MPLBACKEND"] = "Agg"
+    # The package is imported ONCE here, in pristine state, and every chunk of cases runs in a FRESH fork of this
+    # process (maxtasksperchild=1): process-lifetime state (class attributes, module globals, caches) starts from the
+    # initial state for every chunk, and whatever a chunk leaves behind cannot leak into the next one.
+    if getattr(mod, "PREIMPORT", True):
+        import warnings
+        with warnings.catch_warnings():
+            warnings.simplefilter("ignore")
+            import amr_kitchen  # noqa
+    try:
+        with ctx.Pool(nproc, initializer=_worker_init, initargs=(modname, quiet, run_root), maxtasksperchild=1) as pool:
+            for out in pool.imap_unordered(_run_chunk, chunks):
+                results.extend(out)
+    finally:
+        shutil.rmtree(run_root, ignore_errors=True)
     results.sort(key=lambda r: r["case_index"])
 
     import numpy as np
@@ -251,6 +271,8 @@ def run_check(modname, tier, seed, nproc=None, quiet=True):
     free_runs = 0
     if hasattr(mod, "parent_pass") and not harness_errors:
         d = tempfile.mkdtemp(prefix="kvfree.", dir=SCRATCH_BASE)
+        os.environ["MPLCONFIGDIR"] = os.path.join(d, "mplconfig")
+        os.makedirs(os.environ["MPLCONFIGDIR"])
         sys.stdout.flush()
         saved = (os.dup(1), os.dup(2))
         devnull = os.open(os.devnull, os.O_WRONLY)
